@@ -103,7 +103,16 @@ def check(pid, tier):
                     keep = lambda name: (not only or re.search(only, name)) and not (excl and re.search(excl, name))
                     r["failed"] = [x for x in r["failed"] if keep(x["obligation"])]
                     if "b_obligations" in r: r["b_obligations"] = [x for x in r["b_obligations"] if keep(x)]
-                    if only or excl: r["obligation_filter"] = {"only": only, "exclude": excl}
+                    if only or excl:
+                        r["obligation_filter"] = {"only": only, "exclude": excl}
+                        if r["backend"] in ("kani", "verus"):
+                            # a filtered property counts only the proof obligations whose name passes the filter
+                            names = r.get("harnesses") or [f["function"] for f in r.get("functions", [])]
+                            kept = [n for n in names if keep(n)]
+                            if not kept and not r["failed"]: continue
+                            failed_names = len(r["failed"])
+                            r["obligations"] = len(kept); r["discharged"] = max(0, len(kept) - failed_names)
+                            if r.get("harnesses"): r["harnesses"] = kept
                     results.append(r)
             except Undecided as e:
                 undecided.append((u, e.reason))
